@@ -1152,8 +1152,30 @@ def flagged_holders(o):
 def lazy_b_empty(o): o.q.n.b = ""
 for f in (lazy_default, lazy_nondefault, lazy_plain_default, assigned_default, flagged_holders, lazy_b_empty):
     run(f.__name__, f)
+# raw states of the unselected oneof members (what C18's correspondence `orel` is about): PLACEHOLDER / None / a value
+import betterproto as _bp
+def raw(o, name):
+    v = o.__dict__.get(name, "<absent>")
+    return "PLACEHOLDER" if v is _bp.PLACEHOLDER else "None" if v is None else repr(v)
+raws = {}
+for name, mk in (("constructed", lambda: m.Leaf(a=0)), ("fresh", lambda: m.Leaf()), ("parsed", lambda: m.Leaf().parse(bytes.fromhex("0800"))),
+                 ("assigned", lambda: (lambda o: (setattr(o, "b", "x"), o)[1])(m.Leaf(a=1)))):
+    try:
+        o = mk(); raws[name] = [raw(o, "a"), raw(o, "b"), _bp.which_one_of(o, "pick")[0], bytes(o).hex()]
+    except Exception as e:
+        raws[name] = ["EXC " + type(e).__name__ + ": " + str(e)[:200]]
+out["__raw__"] = raws
 print("K37OUT " + json.dumps(out))
 """
+
+# raw state of (a, b), selected member, bytes: what Model/C18Beh.v (pyd_obj: None in unselected members after the constructor) and
+# C18_parse_pydantic_canonical_refuted (PLACEHOLDER, not None, in the siblings reset by the decoder / by __setattr__) say
+K37_RAW_EXPECT = {
+    False: {"constructed": ["0", "PLACEHOLDER", "a", "0800"], "fresh": ["PLACEHOLDER", "PLACEHOLDER", "", ""],
+            "parsed": ["0", "PLACEHOLDER", "a", "0800"], "assigned": ["PLACEHOLDER", "'x'", "b", "120178"]},
+    True: {"constructed": ["0", "None", "a", "0800"], "fresh": ["None", "None", "", ""],
+           "parsed": ["0", "PLACEHOLDER", "a", "0800"], "assigned": ["PLACEHOLDER", "'x'", "b", "120178"]},
+}
 
 
 def stage_nested_lazy(ctx):
@@ -1176,6 +1198,14 @@ def stage_nested_lazy(ctx):
             ctx.fail("oracle", f"nested-lazy-default script failed under {'pydantic' if pyd else 'standard'} dataclasses", input={"output": out[-800:]})
             return
         res[pyd] = json.loads(line[0][7:])
+    for pyd in (False, True):
+        raws = res[pyd].pop("__raw__", {})
+        for name, want in K37_RAW_EXPECT[pyd].items():
+            ctx.count("raw_state_probes")
+            if raws.get(name) != want:
+                ctx.fail("corr", f"raw state of Leaf ({name}, {'pydantic' if pyd else 'standard'} dataclasses): implementation {raws.get(name)}, model {want} "
+                                 "([raw a, raw b, which_one_of, bytes]; Model/C18Beh.v pyd_obj / C18_parse_pydantic_canonical_refuted)",
+                         input={"files": K37_PROTO, "probe": name, "pydantic": pyd})
     for name in res[False]:
         ctx.count("nested_lazy_histories")
         a, b = res[False][name], res[True][name]
